@@ -92,7 +92,7 @@ func (p *Program) lemmaObligations(prop string) (obls []*Obligation, errs []stri
 				}
 				st.assume(t)
 			}
-			obls = append(obls, &Obligation{Name: "lemma." + lm.Name + suffix+"#vacuity:requires#1", Kind: "vacuity", Func: "lemma " + lm.Name, PC: st.pc, Goal: True, ExpectSat: true, Pos: fmt.Sprintf("line %d", lm.Line), Desc: "lemma hypotheses are satisfiable", Props: lm.Props})
+			obls = append(obls, &Obligation{Name: "lemma." + lm.Name + suffix + "#vacuity:requires#1", Kind: "vacuity", Func: "lemma " + lm.Name, PC: st.pc, Goal: True, ExpectSat: true, Pos: fmt.Sprintf("line %d", lm.Line), Desc: "lemma hypotheses are satisfiable", Props: lm.Props})
 			for i, en := range lm.Ensures {
 				t, err := env.ElabBool(en.Expr)
 				if err != nil {
